@@ -128,15 +128,19 @@ def find_nearest_index_satisfying_monotonic_condition(arr: List[TrajectoryData],
         The index of the object with the nearest target value. In case of tie, the smaller index is returned.
 
     """
+    if len(arr) == 0:
+        return -1
     # Find the position where target_time would fit
-    pos = bisect.bisect_left(BisectWrapper(arr, value_getter), target_value)
+    wrapper = BisectWrapper(arr, value_getter)
+    pos = bisect.bisect_left(wrapper, target_value)
 
     # Compare neighbors to find the nearest index
     if pos == 0:
         return 0
+    # rows may repeat a value: the first of the rows holding the nearest smaller value wins the tie
+    before = bisect.bisect_left(wrapper, value_getter(arr[pos - 1]))
     if pos == len(arr):
-        return len(arr) - 1
-    before = pos - 1
+        return before
     after = pos
     if abs(value_getter(arr[before]) - target_value) <= abs(
         value_getter(arr[after]) - target_value
@@ -186,6 +190,8 @@ def find_index_for_time_point(
         index = find_nearest_index_satisfying_monotonic_condition(
             shot.trajectory, time, lambda e: e.time
         )
+        if index < 0:
+            return -1
         if abs(shot.trajectory[index].time - time) <= max_time_deviation_in_seconds:
             return index
         return -1
